@@ -21,8 +21,8 @@ var c11Advances = []time.Duration{1, time.Second, 30 * time.Second, 59 * time.Se
 
 // expirySubject abstracts "store level" and "pool level".
 type expirySubject interface {
-	register(i int) error                                          // peer i (or X = 0) registers / re-registers
-	checkin(i int) error                                           // peer i's own keep-alive (reports nothing)
+	register(i int) error                                               // peer i (or X = 0) registers / re-registers
+	checkin(i int) error                                                // peer i's own keep-alive (reports nothing)
 	report(ids []string) (invalid []string, active []string, err error) // X's keep-alive
 	idOf(i int) string
 	unknownID(k int) string
